@@ -122,6 +122,36 @@ class read_varbyteint_return:
         return result == (n, wire.compact_size(n)) and call_args['s'].tell() == len(pre) + wire.compact_size_len(n)
 
 
+def _stream_raw(pre, enc, rest):
+    import io
+    s = io.BytesIO(pre + enc + rest)
+    s.seek(len(pre))
+    return s
+
+
+def _reader_form_case(fname, first, size):
+    """The stream readers on every payload of each long form (not only shortest-form input): value = little-endian payload, position advanced by
+    exactly 1 + size, and (`_return`) the consumed bytes handed back unchanged - what Transaction.parse / Script.parse rely on to stay aligned
+    and to reproduce the original bytes when a peer used a non-shortest CompactSize."""
+    name = 'form-%02x' % first
+    with_bytes = fname.endswith('_return')
+
+    def call(pre, payload, rest):
+        return {'s': _stream_raw(pre, bytes([first]) + payload, rest)}
+
+    def ensures(pre, payload, rest, result, call_args):
+        want = (wire.from_le(payload), bytes([first]) + payload) if with_bytes else wire.from_le(payload)
+        return result == want and call_args['s'].tell() == len(pre) + 1 + size
+
+    d = {'params': {'pre': Bytes, 'payload': Bytes(size), 'rest': Bytes}, 'call': call, 'ensures': ensures,
+         '__doc__': '%s at any stream position on marker 0x%02x + any %d payload bytes: little-endian value, advances by %d%s' % (
+             fname, first, size, 1 + size, ', consumed bytes returned unchanged' if with_bytes else '')}
+    return contract('bitcoinlib.encoding.' + fname, case=name, props=('C18', 'C06'))(type('%s_form_%02x' % (fname, first), (), d))
+
+
+READER_FORM_CASES = [_reader_form_case(fn, f, n)._contract.key for fn in ('read_varbyteint', 'read_varbyteint_return') for f, n in ((0xfd, 2), (0xfe, 4), (0xff, 8))]
+
+
 # ---------------------------------------------------------------------------------------------------
 # C11: bech32 regrouping (convertbits).  The property clause "decoding followed by re-encoding returns the identical
 # string" at the level of 5-bit symbols: whatever 5->8 accepts re-encodes (8->5) to exactly the symbols it was given,
